@@ -820,6 +820,15 @@ package bchutil
 //@   opaque cashaddr.step
 //@   bind after createChecksum#1: $p = payload
 //@   assert after createChecksum#1: forall j :: 0 <= j && j < 8 ==> $ret[j] == cashaddr.dg(cashaddr.cksum(prefix, len(prefix), $p, len($p)), j)
-//@   assert after cat#1: len($ret) == len($p) + 8 && (forall k :: 0 <= k && k < len($p) ==> $ret[k] == $p[k]) && (forall j :: 0 <= j && j < 8 ==> $ret[len($p) + j] == cashaddr.dg(cashaddr.cksum(prefix, len(prefix), $p, len($p)), j))
-//@   assert after cat#1: lemma cashaddr_codeword(prefix, len(prefix), $p, $ret, len($p))
+//@   bind after cat#1: $q = $ret
+//@   assert after cat#1: len($q) == len($p) + 8 && (forall k :: 0 <= k && k < len($p) ==> $q[k] == $p[k])
+//@   assert after cat#1: forall j :: 0 <= j && j < 8 ==> $q[len($p) + j] == cashaddr.dg(cashaddr.cksum(prefix, len(prefix), $p, len($p)), j)
+//@   assert after cat#1: forall k :: 0 <= k && k < len(prefix) + 1 + len($p) ==> cashaddr.at(prefix, len(prefix), $q, k) == cashaddr.at(prefix, len(prefix), $p, k)
+//@   assert after cat#1: lemma foldc_ext(1, prefix, len(prefix), $q, len(prefix) + 1 + len($p), $p, len(prefix) + 1 + len($p))
+//@   assert after cat#1: cashaddr.foldc(1, prefix, len(prefix), $q, len(prefix) + 1 + len($p)) == cashaddr.foldc(1, prefix, len(prefix), $p, len(prefix) + 1 + len($p))
+//@   assert after cat#1: lemma foldc_unfold8(1, prefix, len(prefix), $q, len(prefix) + 1 + len($p))
+//@   assert after cat#1: lemma cashaddr_selfcheck(cashaddr.foldc(1, prefix, len(prefix), $p, len(prefix) + 1 + len($p)))
+//@   assert after cat#1: forall j :: 0 <= j && j < 8 ==> cashaddr.at(prefix, len(prefix), $q, len(prefix) + 1 + len($p) + j) == cashaddr.dg(cashaddr.z8(cashaddr.foldc(1, prefix, len(prefix), $p, len(prefix) + 1 + len($p))) ^ 1, j)
+//@   assert after cat#1: cashaddr.foldc(1, prefix, len(prefix), $q, len(prefix) + 1 + len($p) + 8) == 1
+//@   assert after cat#1: cashaddr.pm(prefix, len(prefix), $q, len($q)) == 0
 //@   assert after verifyChecksum#1: $ret
